@@ -164,10 +164,25 @@ def gen_fslive(rng, max_steps=12):
 HTTP_CODES = [400, 401, 403, 404, 404, 410, 500, 502, 503]
 
 
+HTTP_LAYOUTS = [
+    # endpoints that share the path and differ in the host only / in the query only; their sources must stay apart
+    (20, [{"host": 0, "path": "/rules"}, {"host": 1, "path": "/rules"}]),
+    (20, [{"host": 0, "path": "/rules", "query": "tenant=a"}, {"host": 0, "path": "/rules", "query": "tenant=b"}]),
+    (5, [{"host": 0, "path": "/rules", "query": "tenant=a"}, {"host": 0, "path": "/rules"}]),
+    (10, [{"host": 0, "path": "/r", "query": "t=a&x=1"}, {"host": 0, "path": "/r", "query": "t=a&x=2"},
+          {"host": 1, "path": "/r", "query": "t=a&x=1"}]),
+]
+
+
 def gen_http(rng, max_steps=14):
-    n = rng.choice([1, 2, 2, 3])
     last = {}
-    case = {"fam": "prov", "kind": "http", "n": n, "steps": []}
+    if rng.random() < 0.5:
+        n = rng.choice([1, 2, 2, 3])
+        case = {"fam": "prov", "kind": "http", "n": n, "steps": []}
+    else:
+        layout = rng.choices([l for _, l in HTTP_LAYOUTS], weights=[w for w, _ in HTTP_LAYOUTS])[0]
+        n = len(layout)
+        case = {"fam": "prov", "kind": "http", "n": n, "endpoints": layout, "steps": []}
     for _ in range(rng.randint(3, max_steps)):
         k = rng.randrange(n)
         r = rng.random()
@@ -192,11 +207,28 @@ def gen_http(rng, max_steps=14):
 # ---------------------------------------------------------------------------------------------------------------
 # cloud_blob
 
+BLOB_LAYOUTS = [
+    # bucket j owns the sources 4j..4j+3 (keys <prefix>s0..s3). Buckets of the same name on different stores have
+    # urls that differ in the query only; same store and name with disjoint prefixes differ in the prefix only.
+    (25, [{"store": 0, "name": 0}, {"store": 1, "name": 0}]),
+    (8, [{"store": 0, "name": 0, "prefix": "a/"}, {"store": 0, "name": 0, "prefix": "b/"}]),
+    (5, [{"store": 0, "name": 0}, {"store": 0, "name": 1}]),
+    (10, [{"store": 0, "name": 0}, {"store": 1, "name": 0}, {"store": 2, "name": 0}]),
+    (5, [{"store": 0, "name": 0, "prefix": "x/"}, {"store": 1, "name": 0, "prefix": "x/"}, {"store": 1, "name": 1}]),
+]
+
+
 def gen_blob(rng, max_steps=10, netfail=0.0):
-    single = rng.random() < 0.15
+    single = rng.random() < 0.12
     last = {}
     case = {"fam": "prov", "kind": "blob", "single": single, "steps": []}
-    keys = [0] if single else list(range(NSRC))
+    nb = 1
+    if not single and rng.random() < 0.55:
+        layout = rng.choices([l for _, l in BLOB_LAYOUTS], weights=[w for w, _ in BLOB_LAYOUTS])[0]
+        case["buckets"] = layout
+        nb = len(layout)
+        max_steps += 4
+    keys = [0] if single else list(range(NSRC * nb))
     for _ in range(rng.randint(3, max_steps)):
         sets = []
         for k in rng.sample(keys, min(len(keys), rng.choice([0, 1, 1, 1, 2, 2, 3]))):
@@ -209,6 +241,8 @@ def gen_blob(rng, max_steps=10, netfail=0.0):
                 last[k] = v
             sets.append({"k": k, "blob": spec})
         step = {"set": sets}
+        if nb > 1:
+            step["b"] = rng.randrange(nb)       # polls of the buckets come in any order
         r = rng.random()
         if r < 0.07:
             step["fail"] = "comm"
